@@ -56,6 +56,10 @@ def merge_schemas(left_schema, right_schema, how, on=None):
     else:
         raise IllegalArgumentException(f"Invalid how argument in join: {how}")
 
+    if how in (LEFT_ANTI_JOIN, LEFT_SEMI_JOIN):
+        # semi and anti joins only return columns of the left side
+        other_right_fields = []
+
     return StructType(fields=on_fields + other_left_fields + other_right_fields)
 
 
